@@ -389,6 +389,15 @@ def apply(ref, op):  # noqa: C901  (one flat dispatch on purpose: boring is the 
             raise Refuse('multi-worker prefetch needs len and indexing')
         return ref.derive(ref.items, 'prefetch', indexable=False, keyed=False, items_mode='no', lookup=False)
 
+    if name == 'prefetch_catch':
+        _, w, b, spec = op
+        caught = ['FilterException'] if spec is True else list(spec)
+        if not (ref.sized and ref.indexable):
+            raise Refuse('prefetch with catch_filter_exception reads its input by index')
+        items = [(k, v) for k, v in ref.items if not (isinstance(v, Err) and exc_matches(v.exc, caught))]
+        mode = _by_index_mode(ref) if w == 1 else 'no'
+        return ref.derive(items, 'prefetch', sized=False, indexable=False, keyed=False, items_mode=mode, lookup=False)
+
     if name in ('concat', 'intersperse', 'zip', 'key_zip'):
         other = partner(ref, op[1])
         parts = [ref, other]
